@@ -3,7 +3,7 @@
 export GOFLAGS=-mod=mod GOPROXY=off GOSUMDB=off GOTOOLCHAIN=local
 cd "$(dirname "$0")" || exit 1
 mkdir -p build/std evidence
-(cd harness && go build -tags verif -o ../build/tsverif .) || exit 1
+(cd harness && go build -tags verif -o ../build/tsverif . && go build -o ../build/probe ./probe) || exit 1
 (cd /repo && go build -tags verif -o /verif/build/tsh .) || exit 1
 cp -f /repo/std/*.tsh build/std/
 echo "setup ok"
